@@ -46,6 +46,7 @@ import html as _html
 import itertools
 import os
 import re
+import signal
 
 from .. import core, tools
 from ..refs import macroast as M
@@ -104,6 +105,37 @@ ENV_SETUP = (('LET', 'a', num(5)), ('LET', 's$', lit('xy')), ('LETD', 'd', num(0
              ('LETD', 'e$', lit('?'), ((num(1), lit('one')), (num(2), None))), DEF_M, DEF_Q, DEF_W, DEF_T)
 
 
+HORIZON = 1.0          # CPU-seconds allowed for the expansion of one text (the longest legitimate one takes ~20 ms)
+TOOL_HORIZON = 20.0    # CPU-seconds allowed for one tool run (~0.1 s)
+
+
+class ExpansionTimeout(BaseException):
+    """Raised by the watchdog inside the code under test.  Not an Exception subclass, so that
+    `except Exception` handlers there do not swallow it; the timer keeps firing for the bare
+    `except:` handlers that do."""
+
+
+def _on_timer(signum, frame):
+    raise ExpansionTimeout()
+
+
+_timer_pid = None
+
+
+def _arm(seconds):
+    """Horizon for one execution of the code under test, in CPU time of this process (so that
+    machine load cannot fake a hang).  An expansion that does not terminate is a violation."""
+    global _timer_pid
+    if _timer_pid != os.getpid():
+        signal.signal(signal.SIGVTALRM, _on_timer)
+        _timer_pid = os.getpid()
+    signal.setitimer(signal.ITIMER_VIRTUAL, seconds, 0.25)
+
+
+def _disarm():
+    signal.setitimer(signal.ITIMER_VIRTUAL, 0)
+
+
 def _clear_caches():
     """Simulated process start (see the module docstring)."""
     from skoolkit import skoolmacro
@@ -155,13 +187,25 @@ class Writers:
         """(asm, html) expansions; an exception is returned as 'ERROR: ...'."""
         self.nexp += 2
         try:
+            _arm(HORIZON)
             ra = self.asm.expand(text)
+            _disarm()
+        except ExpansionTimeout:
+            _disarm()
+            ra = 'ERROR: expansion did not terminate within {} CPU-seconds'.format(HORIZON)
         except Exception as e:
+            _disarm()
             ra = 'ERROR: {}: {}'.format(type(e).__name__, e)
         try:
             # the skool parser HTML-escapes comment text before the HTML writer sees it
+            _arm(HORIZON)
             rh = self.html.expand(_html.escape(text, False), 'asm')
+            _disarm()
+        except ExpansionTimeout:
+            _disarm()
+            rh = 'ERROR: expansion did not terminate within {} CPU-seconds'.format(HORIZON)
         except Exception as e:
+            _disarm()
             rh = 'ERROR: {}: {}'.format(type(e).__name__, e)
         return ra, rh
 
@@ -816,10 +860,19 @@ def run_tools(hist, cfg, fam, stats=None):
                                                             if not M._has(p, ('PC',)))]
     tools.write_file(name + '.ref', '\n'.join(page) + '\n', d)
     opts = {0: [], 10: ['-D'], 16: ['-H']}[base] + {0: [], 1: ['-l'], 2: ['-u']}[case]
-    _clear_caches()
-    ra = tools.run_tool('skool2asm', ['-q', '-w', '-P', 'line-width=4000'] + opts + [path])
-    _clear_caches()
-    rh = tools.run_tool('skool2html', ['-q', '-d', os.path.join(d, name + '-html')] + opts + [path])
+    try:
+        _clear_caches()
+        _arm(TOOL_HORIZON)
+        ra = tools.run_tool('skool2asm', ['-q', '-w', '-P', 'line-width=4000'] + opts + [path])
+        _disarm()
+        _clear_caches()
+        _arm(TOOL_HORIZON)
+        rh = tools.run_tool('skool2html', ['-q', '-d', os.path.join(d, name + '-html')] + opts + [path])
+        _disarm()
+    except ExpansionTimeout:
+        _disarm()
+        res.append(('tool-error', name, 'a tool run did not terminate within {} CPU-seconds'.format(TOOL_HORIZON)))
+        return res
     if stats is not None:
         stats.transitions += 2 * len(hist)
         stats.counters['tool_runs'] += 2
